@@ -45,6 +45,29 @@ func (o *onceReader) Read(p []byte) (int, error) {
 	return 0, io.EOF
 }
 
+// primeCut is a head that is cut off after one complete field line: reading it fails with "need more".
+var primeCut = []byte("GET /prime HTTP/1.1\r\nHost: primehost\r\nX-Long: " + strings.Repeat("p", 60))
+
+// readReqHeadReused reads buf with a RequestHeader object that has seen a connection die in the middle of a head
+// before (with or without Reset in between): the verdict must be the one a fresh object gives.
+func readReqHeadReused(buf []byte, reset bool) headVerdict {
+	var h fasthttp.RequestHeader
+	h.Read(bufio.NewReaderSize(bytes.NewReader(primeCut), 64*1024))
+	if reset {
+		h.Reset()
+	}
+	br := bufio.NewReaderSize(bytes.NewReader(buf), 64*1024)
+	err := h.Read(br)
+	return verdictOf(err, len(buf), br, func() string {
+		var sb strings.Builder
+		fmt.Fprintf(&sb, "%s %s %s|", h.Method(), h.RequestURI(), h.Protocol())
+		for k, v := range h.All() {
+			fmt.Fprintf(&sb, "%s=%s;", H(k), H(v))
+		}
+		return sb.String()
+	})
+}
+
 func readReqHead(buf []byte) headVerdict {
 	var h fasthttp.RequestHeader
 	src := &onceReader{b: buf}
@@ -100,7 +123,7 @@ func init() {
 	Register(&Prop{
 		ID: "C09",
 		Rule: "triples (H, S1, S2): H = a request or response head built line by line with every mix of CRLF / bare-LF line ends and blank-line terminators (and without terminator), fields from a small grammar incl. folding and odd bytes; " +
-			"S1, S2 = continuations (empty, body bytes, a pipelined message with CRLFCRLF, bare LFs, random); both H++S1 and H++S2 go through RequestHeader.Read / ResponseHeader.Read (H alone through a reader that counts the reads asked for after everything was delivered); live: the head alone on a server connection, in one read or with its last 1..4 bytes in a read of their own, starvation reported as EOF or as a timeout (no answer before input starvation = waited); " +
+			"S1, S2 = continuations (empty, body bytes, a pipelined message with CRLFCRLF, bare LFs, random); both H++S1 and H++S2 go through RequestHeader.Read / ResponseHeader.Read (H alone through a reader that counts the reads asked for after everything was delivered; request heads also through a RequestHeader object that read a cut-off head before, with and without Reset); live: the head alone on a server connection, in one read or with its last 1..4 bytes in a read of their own, starvation reported as EOF or as a timeout (no answer before input starvation = waited); " +
 			"non-trivial = H contains a blank line; distinct = distinct triple",
 		Parallel: true,
 		Build: func(kind string, a [][]byte) *Case {
@@ -114,6 +137,18 @@ func init() {
 				v0 := rd(Hd)
 				v1 := rd(append(append([]byte(nil), Hd...), S1...))
 				v2 := rd(append(append([]byte(nil), Hd...), S2...))
+				// the same bytes through a header object with a history (pooled objects are reused after failed reads)
+				reusedNote := ""
+				if kind == "req" {
+					for _, reset := range []bool{true, false} {
+						for _, pair := range [][2]interface{}{{append(append([]byte(nil), Hd...), S1...), v1}, {append(append([]byte(nil), Hd...), S2...), v2}} {
+							vr, vf := readReqHeadReused(pair[0].([]byte), reset), pair[1].(headVerdict)
+							if (vr.class != vf.class || vr.consumed != vf.consumed || vr.fields != vf.fields) && reusedNote == "" {
+								reusedNote = fmt.Sprintf("a RequestHeader that had read a cut-off head before (Reset in between: %v) reads %q as %s/%d [%s], a fresh one as %s/%d [%s]", reset, pair[0].([]byte), vr.class, vr.consumed, vr.fields, vf.class, vf.consumed, vf.fields)
+							}
+						}
+					}
+				}
 				impl := fmt.Sprintf("%s %d", v0.class, v0.consumed)
 				return &Case{Lines: []string{Line("headend", Hd)}, Impl: impl + " " + v0.fields, Nontrivial: bytes.Contains(Hd, B("\n\n")) || bytes.Contains(Hd, B("\n\r\n")),
 					Tags: []string{kind, kind + "-" + v0.class},
@@ -121,6 +156,9 @@ func init() {
 						desc := fmt.Sprintf("%s head %q: alone -> %s/%d [%s]; + %q -> %s/%d [%s]; + %q -> %s/%d [%s]", kind, Hd, v0.class, v0.consumed, v0.fields, S1, v1.class, v1.consumed, v1.fields, S2, v2.class, v2.consumed, v2.fields)
 						// property monitor: a head that is complete on its own (accepted or rejected) gets the same verdict whatever follows;
 						// and two continuations never produce two different accepted heads
+						if reusedNote != "" {
+							return Verdict{VSpec, "verdict-depends-on-object-history", reusedNote}
+						}
 						if v0.class != "needmore" && v0.extraReads > 0 {
 							return Verdict{VSpec, "complete-head-waits", fmt.Sprintf("%s: the parser asked the connection for more input %d time(s) after the whole head had been delivered, although it then decided the head from its own bytes", desc, v0.extraReads)}
 						}
